@@ -355,7 +355,9 @@ def rule_managers_isolated(ctx: Ctx, out: Collector) -> None:
     """EV-6: a raising event manager must not change what the other (well-behaved) managers observe: the dispatcher
     awaits each manager's callback inside a handler for Exception, so that the remaining managers still get the event
     and the emitting code does not take its own error path because of a hook."""
-    from .er import _inside_try_catching
+    from .cw import rule_managers_isolated_worlds
+    return rule_managers_isolated_worlds(ctx, out)
+    from .er import _inside_try_catching          # the loop-shape reading, kept for reference
     n = 0
     for unit in ctx.p.functions.values():
         if unit.cls is None or not unit.is_async or isinstance(unit.node, ast.Lambda):
@@ -552,11 +554,18 @@ def rule_executor_exception_transfer(ctx: Ctx, out: Collector) -> None:
             continue
         env = FuncEnv.of(ctx.p, unit)
         for c in env.own_nodes():
-            if not (isinstance(c, ast.Call) and isinstance(c.func, ast.Attribute) and c.func.attr == 'run_in_executor' and len(c.args) >= 2):
+            if not (isinstance(c, ast.Call) and isinstance(c.func, ast.Attribute)):
+                continue
+            # loop.run_in_executor(pool, fn, ...) or <pool>.submit(fn, ...) (whose future is then copied into an asyncio future)
+            if c.func.attr == 'run_in_executor' and len(c.args) >= 2:
+                handed = c.args[1]
+            elif c.func.attr == 'submit' and c.args and 'parallelism' not in unit.module.name:
+                handed = c.args[0]
+            else:
                 continue
             n += 1
             pseudo = __import__('sa.cfg', fromlist=['Inst']).Inst(unit, None, None, {})
-            fn, _ = sym.resolve_value(ctx.p, c.args[1], pseudo)          # the callable may be bound to a local first
+            fn, _ = sym.resolve_value(ctx.p, handed, pseudo)          # the callable may be bound to a local first
             cons = f'{unit.module.name}::{unit.qualname}::{text(c)[:60]} [StopIteration cannot cross the executor future]'
             wrapped = False
             target = fn
@@ -575,7 +584,7 @@ def rule_executor_exception_transfer(ctx: Ctx, out: Collector) -> None:
                         '(next() on an exhausted iterator) asyncio cannot copy it into the future, the awaiting task never wakes, the node '
                         'never completes and the run hangs', props={'C02'})
     if n == 0:
-        raise AnalysisError('no run_in_executor call found (EX-6 anchor vanished)')
+        raise AnalysisError('no hand-over of a body to a pool (run_in_executor / submit) found (EX-6 anchor vanished)')
 
 
 # ---------------------------------------------------------------------------------------------
